@@ -164,6 +164,38 @@ pub fn drive_stream(t: &mut Tracer, tier: &str, seed: u64, plan: Option<String>)
         run_requests(t, &sess(), &key, &iv, &[*big, 1, 17]);
     }
     if thorough { run_requests(t, &sess(), &rng.bytes(16), &rng.bytes(16), &[(1 << 16) + 3, 2]); run_requests(t, &sess(), &rng.bytes(16), &rng.bytes(16), &[3, (1 << 15) + 1, 4097, 5]); }
+    // (b3) VERY long streams (2^27 words and more from one generator): the words between the judged windows are produced by the library and
+    //      dropped; at each window the generator's state is read through the gm_rs_verif accessor and logged as a `zuc.skip` event -- the
+    //      specification checks the LFSR part of it by skip-ahead (x^n modulo the feedback polynomial), takes the two memory words from the
+    //      log, and judges the next requests from that state.  Windows sit around 2^k words (counters in words, bits or bytes that wrap).
+    {
+        let (key, iv) = (rng.bytes(16), rng.bytes(16));
+        let s = sess();
+        let out = guard_plain(|| ZUC::new(&key, &iv));
+        t.emit(&s, "zuc.new", json!({"prop": "C08", "key": bytes(&key), "iv": bytes(&iv), "outcome": out.name(), "detail": out.detail()}));
+        if let crate::trace::Outcome::Ok(mut z) = out {
+            let mut produced: u64 = 0;
+            let mut req = |t: &mut Tracer, z: &mut ZUC, n: usize, produced: &mut u64| {
+                let o = guard_plain(|| z.generate_keystream(n));
+                let w = o.ok().cloned().unwrap_or_default();
+                t.emit(&s, "zuc.req", json!({"prop": "C08", "n": n, "out": words16(&w), "outcome": o.name(), "detail": o.detail()}));
+                *produced += n as u64;
+            };
+            req(t, &mut z, 40, &mut produced);
+            let marks: Vec<u64> = if thorough { vec![1 << 12, 1 << 16, 1 << 20, 1 << 24, 1 << 26, 1 << 27, (1 << 27) + (1 << 26), 1 << 28] } else { vec![1 << 16, 1 << 24, 1 << 26, 1 << 27] };
+            for m in marks {
+                let target = m - 40;                                     // the window [m - 40, m + 24) is judged
+                let mut left = target - produced;
+                let skipped = left;
+                let o = guard_plain(|| { while left > 0 { let c = left.min(1 << 16) as usize; let _ = z.generate_keystream(c); left -= c as u64; } });
+                produced = target;
+                let (cells, r1, r2) = z.verif_state();
+                t.emit(&s, "zuc.skip", json!({"prop": "C08", "n": skipped, "s": cells.to_vec(), "r1": word16(r1), "r2": word16(r2), "at": format!("2^{}", 63 - m.leading_zeros()), "outcome": o.name(), "detail": o.detail()}));
+                req(t, &mut z, 33, &mut produced);
+                req(t, &mut z, 31, &mut produced);
+            }
+        }
+    }
     // (c) long streams with seeded random splits
     let (streams, total) = if thorough { (8, 1usize << 16) } else { (5, 4000usize) };
     for si in 0..streams {
@@ -208,6 +240,16 @@ pub fn drive_eea(t: &mut Tracer, tier: &str, seed: u64) {
     let m1 = [0x6cf65340u32,0x735552ab,0x0c9752fa,0x6f9025fe,0x0bd675d9,0x005875b2,0];
     eea_event(t, &sess(), &ck1, 0x66035492, 15, 0, 193, &m1);
     eia_event(t, &sess(), &[0u8; 16], 0, 0, 0, 1, &[0]);
+    // LENGTH = 0 for the confidentiality function too (zero output words), with an empty and a non-empty message, extreme COUNT / BEARER / DIRECTION
+    for (count, bearer, dir, nw) in [(0u32, 0u32, 0u32, 0usize), (0xffff_ffff, 31, 1, 0), (0x8000_0000, 16, 1, 3), (1, 31, 0, 1)] {
+        let key = rng.bytes(16);
+        let msg = words(&mut rng, nw);
+        eea_event(t, &sess(), &key, count, bearer, dir, 0, &msg);
+        eia_event(t, &sess(), &key, count, bearer, dir, 0, &msg);
+        let m2 = words(&mut rng, 2);
+        eea_event(t, &sess(), &key, count, bearer, dir, 33, &m2);
+        eia_event(t, &sess(), &key, count, bearer, dir, 33, &m2);
+    }
     // every LENGTH (thorough) or a stride plus every multiple of 32 +-1 (quick); bearers and directions sampled against length
     let maxlen = 600u32;
     for len in 0..=maxlen {
